@@ -2014,6 +2014,16 @@ func (h *fsmHandler) established(ctx context.Context) (bgp.FSMState, *fsmStateRe
 
 	holdtimerResetCh := make(chan struct{}, 2)
 
+	// An administrative shutdown/reset requested while no session was
+	// established is only queued (nobody reads fsm.notification outside of
+	// this state). It must not be applied to a session that is established
+	// later, so discard what is left over before the I/O loops of this
+	// session can queue anything.
+	select {
+	case <-fsm.notification:
+	default:
+	}
+
 	go h.sendMessageloop(ioCtx, fsm.conn, reasonCh, wg)
 	go h.recvMessageloop(ioCtx, fsm.conn, holdtimerResetCh, reasonCh, wg)
 
